@@ -31,6 +31,7 @@ import (
 	"fmt"
 	lru "github.com/hashicorp/golang-lru"
 	"sort"
+	"sync"
 )
 
 const (
@@ -108,6 +109,10 @@ type TxPool struct {
 
 	executed db.Database
 	batch    db.Batch
+
+	// lock serialises submission (check-then-push, gate nonce) with block
+	// bookkeeping; both sides share the pending set, the executed store and batch
+	lock sync.Mutex
 }
 
 var (
@@ -176,6 +181,9 @@ func (pool *TxPool) AddTransaction(tx *types.Transaction) (bool, error) {
 	//	return false, ErrEvicted
 	//}
 
+	pool.lock.Lock()
+	defer pool.lock.Unlock()
+
 	b, err := pool.add(tx)
 	if nil == err {
 		pool.refreshGateNonce(tx)
@@ -184,6 +192,9 @@ func (pool *TxPool) AddTransaction(tx *types.Transaction) (bool, error) {
 }
 
 func (pool *TxPool) MarkExecuted(header *types.BlockHeader, receipts types.Receipts, txs []*types.Transaction, evictedTxs []common.Hash) {
+	pool.lock.Lock()
+	defer pool.lock.Unlock()
+
 	txHashList := make([]interface{}, 0)
 
 	if receipts != nil && len(receipts) != 0 {
@@ -246,6 +257,9 @@ func (pool *TxPool) UnMarkExecuted(block *types.Block) {
 	if nil == txs || 0 == len(txs) {
 		return
 	}
+
+	pool.lock.Lock()
+	defer pool.lock.Unlock()
 
 	mysql.DeleteLogs(block.Header.Height, block.Header.Hash)
 
